@@ -203,11 +203,20 @@ func c19(c *core.Ctx) {
 		// each service gets its registration function: the emission of RegisterHandler<Svc> is executed in every
 		// iteration of the per-service loop (no fast path or option skips it)
 		{
+			// the call that is given the function's name "RegisterHandler<Svc>" (Sprintf or concatenation)
 			var regs []*ssa.Call
-			for _, sp := range core.CallsIn(gen, func(_ *ssa.Call, ci core.CallInfo) bool { return ci.Is("fmt.Sprintf") }) {
-				if f, ok := core.ConstString(sp.Call.Args[0]); ok && strings.HasPrefix(f, "RegisterHandler") {
-					regs = append(regs, sp)
+			for _, sp := range core.CallsIn(gen, func(call *ssa.Call, _ core.CallInfo) bool {
+				for _, a := range call.Call.Args {
+					if core.TypeStr(a.Type()) != "string" {
+						continue
+					}
+					if f, fa, ok := core.FormatOf(a); ok && len(fa) >= 1 && strings.HasPrefix(f, "RegisterHandler%") {
+						return true
+					}
 				}
+				return false
+			}) {
+				regs = append(regs, sp)
 			}
 			key := gk + ":registration-for-every-service"
 			if len(regs) == 0 {
